@@ -1340,6 +1340,15 @@ DISPATCH_ALWAYS_INLINE DISPATCH_WARN_RESULT
 static inline bool
 _dispatch_queue_try_acquire_barrier_sync(dispatch_queue_class_t dq, uint32_t tid)
 {
+	// The state word also looks `completely idle` between the moment a first
+	// enqueuer exchanged dq_items_tail and the moment it sets the DIRTY and
+	// ENQUEUED bits, once a previous drainer has unlocked. An item this thread
+	// pushed behind that enqueuer would then be overtaken, so like
+	// _dispatch_queue_try_reserve_sync_width() check that nothing is enqueued
+	// ahead of this call <rdar://problem/24738102&24743140>
+	if (unlikely(dq._dl->dq_items_tail)) {
+		return false;
+	}
 	return _dispatch_queue_try_acquire_barrier_sync_and_suspend(dq._dl, tid, 0);
 }
 
